@@ -465,7 +465,7 @@ func evalCodecRoundTrip(c *Ctx, r *Report, rule string, sp codecSpec) {
 		if L < 0 {
 			continue
 		}
-		sc := &Scenario{Name: fmt.Sprintf("len=%d", L), MaxVisit: 8, MaxPaths: 20000,
+		sc := &Scenario{Name: fmt.Sprintf("len=%d", L), MaxVisit: 40, MaxPaths: 20000,
 			Params: map[string]SV{"recv": symRef("recv", false), "p0": {K: "slice", Desc: "src", Len: lenSV(L), Cap: lenSV(L)}, "p1": symRef("hdr", false)},
 			Inline: inline, Call: codecModel, ZeroRecv: true, Heap: map[string]SV{},
 		}
@@ -514,7 +514,7 @@ func evalCodecRoundTrip(c *Ctx, r *Report, rule string, sp codecSpec) {
 					heap[k] = v
 				}
 			}
-			sc2 := &Scenario{Name: sc.Name, MaxVisit: 8, Params: map[string]SV{"recv": symRef("recv", false)}, Heap: heap, Inline: inline, Call: codecModel, Assume: map[string]bool{}, ZeroRecv: true}
+			sc2 := &Scenario{Name: sc.Name, MaxVisit: 40, Params: map[string]SV{"recv": symRef("recv", false)}, Heap: heap, Inline: inline, Call: codecModel, Assume: map[string]bool{}, ZeroRecv: true}
 			for _, a := range p.Assume {
 				i := strings.LastIndex(a, "=")
 				sc2.Assume[a[:i]] = a[i+1:] == "true"
